@@ -179,7 +179,8 @@ func keyValue(r *kit.Rng, s *schema.Node, o GenOpts) string {
 	case "enum":
 		return s.Enums[r.Intn(len(s.Enums))]
 	case "decimal64":
-		return fmt.Sprintf("%d.50", 1+r.Intn(n))
+		// neighbours less than 1 apart
+		return fmt.Sprintf("%d.%s", 1+r.Intn(n/2+1), []string{"25", "50", "75"}[r.Intn(3)])
 	}
 	return "k" + fmt.Sprint(r.Intn(n))
 }
@@ -244,6 +245,9 @@ func Random(r *kit.Rng, s *schema.Node, o GenOpts, depth int) *Tree {
 			t.Leaf[c.Name] = Value(r, c, o)
 		case schema.LeafList:
 			n := r.Range(1, 3)
+			if o.Nasty && r.Chance(1, 12) {
+				n = r.Pick3(30, 120, 400) // long arrays (buffers inside a writer fill up within one value)
+			}
 			vs := []string{}
 			if o.EmptyLL && r.Chance(1, 6) {
 				n = 0
